@@ -104,13 +104,21 @@ func checkSetMembers(value *types.Item, name string) error {
 	}
 
 	for _, member := range value.SS {
-		if err := note(types.StringValue(member)); err != nil {
+		if member == nil {
+			return fmt.Errorf("%w: a set member has no value; field %q", ErrInvalidAtrributeValue, name)
+		}
+
+		if err := note(*member); err != nil {
 			return err
 		}
 	}
 
 	for _, member := range value.NS {
-		if err := note(encodeNumberKey(types.StringValue(member))); err != nil {
+		if member == nil {
+			return fmt.Errorf("%w: a set member has no value; field %q", ErrInvalidAtrributeValue, name)
+		}
+
+		if err := note(encodeNumberKey(*member)); err != nil {
 			return err
 		}
 	}
